@@ -1473,7 +1473,10 @@ class Unserializer:
 
     def load_longint(self) -> None:
         s = self._read_byte_string()
-        self.stack.append(int(s))
+        try:
+            self.stack.append(int(s))
+        except ValueError:
+            raise LoadError("invalid integer literal %r" % s[:40]) from None
 
     num2func[opcode.LONGINT] = load_longint
 
@@ -1483,25 +1486,40 @@ class Unserializer:
     num2func[opcode.LONGLONG] = load_longlong
 
     def load_float(self) -> None:
-        binary = self.stream.read(FLOAT_FORMAT_SIZE)
+        binary = self._read(FLOAT_FORMAT_SIZE)
         self.stack.append(struct.unpack(FLOAT_FORMAT, binary)[0])
 
     num2func[opcode.FLOAT] = load_float
 
     def load_complex(self) -> None:
-        binary = self.stream.read(COMPLEX_FORMAT_SIZE)
+        binary = self._read(COMPLEX_FORMAT_SIZE)
         self.stack.append(complex(*struct.unpack(COMPLEX_FORMAT, binary)))
 
     num2func[opcode.COMPLEX] = load_complex
 
+    def _read(self, numbytes: int) -> bytes:
+        """Read exactly 'numbytes' bytes or raise EOFError."""
+        if numbytes < 0:
+            raise LoadError("negative length %d" % numbytes)
+        data = self.stream.read(numbytes)
+        if len(data) != numbytes:
+            raise EOFError("expected %d bytes, got %d" % (numbytes, len(data)))
+        return data
+
     def _read_int4(self) -> int:
-        value: int = struct.unpack("!i", self.stream.read(4))[0]
+        value: int = struct.unpack("!i", self._read(4))[0]
         return value
 
     def _read_byte_string(self) -> bytes:
         length = self._read_int4()
-        as_bytes = self.stream.read(length)
+        as_bytes = self._read(length)
         return as_bytes
+
+    def _decode(self, as_bytes: bytes, encoding: str) -> str:
+        try:
+            return as_bytes.decode(encoding)
+        except UnicodeDecodeError as e:
+            raise LoadError("invalid %s string: %s" % (encoding, e)) from None
 
     def load_py3string(self) -> None:
         as_bytes = self._read_byte_string()
@@ -1509,7 +1527,7 @@ class Unserializer:
             # XXX Should we try to decode into latin-1?
             self.stack.append(as_bytes)
         else:
-            self.stack.append(as_bytes.decode("utf-8"))
+            self.stack.append(self._decode(as_bytes, "utf-8"))
 
     num2func[opcode.PY3STRING] = load_py3string
 
@@ -1530,12 +1548,14 @@ class Unserializer:
     num2func[opcode.BYTES] = load_bytes
 
     def load_unicode(self) -> None:
-        self.stack.append(self._read_byte_string().decode("utf-8"))
+        self.stack.append(self._decode(self._read_byte_string(), "utf-8"))
 
     num2func[opcode.UNICODE] = load_unicode
 
     def load_newlist(self) -> None:
         length = self._read_int4()
+        if length < 0:
+            raise LoadError("negative list length %d" % length)
         self.stack.append([None] * length)
 
     num2func[opcode.NEWLIST] = load_newlist
@@ -1545,7 +1565,10 @@ class Unserializer:
             raise LoadError("not enough items for setitem")
         value = self.stack.pop()
         key = self.stack.pop()
-        self.stack[-1][key] = value  # type: ignore[index]
+        try:
+            self.stack[-1][key] = value  # type: ignore[index]
+        except (TypeError, IndexError):
+            raise LoadError("invalid setitem target or key") from None
 
     num2func[opcode.SETITEM] = load_setitem
 
@@ -1556,8 +1579,13 @@ class Unserializer:
 
     def _load_collection(self, type_: type) -> None:
         length = self._read_int4()
+        if length < 0 or length > len(self.stack):
+            raise LoadError("invalid item count %d" % length)
         if length:
-            res = type_(self.stack[-length:])
+            try:
+                res = type_(self.stack[-length:])
+            except TypeError:
+                raise LoadError("unhashable item in set") from None
             del self.stack[-length:]
             self.stack.append(res)
         else:
@@ -1585,7 +1613,8 @@ class Unserializer:
 
     def load_channel(self) -> None:
         id = self._read_int4()
-        assert self.channelfactory is not None
+        if self.channelfactory is None:
+            raise LoadError("channel object outside of a gateway")
         newchannel = self.channelfactory.new(id)
         self.stack.append(newchannel)
 
